@@ -109,7 +109,13 @@ def build_classes(nodes: list[Node]):
         if n.parent is None:
             n.cls = type(n.name, (ABC,), {})
         elif n.is_abstract:
-            n.cls = abstract(type(n.name, (n.parent.cls,), {}))
+            n.cls = type(n.name, (n.parent.cls,), {})
+            if n.weight is not None and n.index % 2 == 0:
+                # `@abstract` written ABOVE `@weight`: the weight is declared first
+                weight(n.weight)(n.cls)
+                abstract(n.cls)
+                continue
+            abstract(n.cls)
         else:
             fields = [("x", int)]
             if n.rec_field is not None:
